@@ -82,9 +82,9 @@ def build_coq(targets):
 REFINE = {
     # property -> Refine/<file>.v whose lemmas tie the generated code (rs2v) to the model
     "C01": ["SigCore", "SigSchemes", "WSig", "WEnum", "G01"], "C02": ["SigCore", "SigSchemes", "WSig", "WCodec", "G02"],
-    "C03": ["HelpersR", "Consts", "SigSchemes", "WSig", "WEnum"],
+    "C03": ["HelpersR", "Consts", "SigSchemes", "WSig", "WEnum", "G03"],
     "C04": ["HelpersR", "SigCore", "SigSchemes", "PoK", "SignCrypt", "TimeLock", "ElGamal", "WSig", "WPoK", "WEnc", "G04"],
-    "C05": ["Consts", "SigSchemes", "WSig", "WPoK", "WEnc"],
+    "C05": ["Consts", "SigSchemes", "WSig", "WPoK", "WEnc", "G05"],
     "C06": ["SigCore", "SigSchemes", "WSig", "G06"], "C07": ["SigSchemes", "WSig", "G07"], "C08": ["SigCore", "WSig", "G08"],
     "C09": ["SigSchemes", "WSig", "WCodec", "G09"], "C10": ["PoK", "WPoK", "G10"], "C11": ["HelpersR", "SignCrypt", "WEnc", "G11"],
     "C12": ["SignCrypt", "SigCore", "WEnc", "G12"], "C13": ["HelpersR", "TimeLock", "WEnc", "G13"], "C14": ["ElGamal", "Consts", "WEnc", "G14"],
